@@ -107,6 +107,8 @@ def preprocess_clause(cl, rng, n, replay):
         raws, recs, degs = [], [], []
         for _ in range(nrec):
             N = int(rng.integers(int(6.5 * fs), int(9 * fs)))
+            if L is not None and rng.random() < 0.4:
+                N = int(round(L * fs)) * int(rng.integers(2, 5))      # a whole number of windows: the last one is the legal window that is one sample short
             t = np.arange(N) * dt
             comp = [rng.normal(0, 1, N) + 0.01 * t * rng.uniform(-3, 3) + rng.uniform(-2, 2) for _ in range(3)]
             deg = float(rng.choice([0., 30., 200., 400.]))
@@ -116,6 +118,14 @@ def preprocess_clause(cl, rng, n, replay):
                 # detrended one by one (a slice of a detrended record is not detrended)
                 rec.detrend(type=det)
                 comp = [detrend(np.array(c, dtype=float), type=det) for c in comp]
+            if j % 4 == 1:
+                # a recording with an orientation history: the user has already turned it (its current orientation is no longer the deployed one)
+                first = float(rng.choice([45., 90., 300., -20.]))
+                rec.orient_sensor_to(first)
+                cur0 = deg - 360 * (deg // 360)
+                a_, b_ = _ref_orient(np.array(comp[0], dtype=float), np.array(comp[1], dtype=float), cur0, first)
+                comp = [a_, b_, comp[2]]
+                deg = first
             raws.append(comp)
             degs.append(deg)
             recs.append(rec)
